@@ -13,7 +13,7 @@ EXPLANATION = ('llsym (real-algebraic) runs the real static helpers of engine_ra
                '(body exclusion, invisible geom/material, static exclusion, group clamp to [0, mjNGROUP)); mj_ray with the per-geom distance functions uninterpreted returns the minimum non-negative '
                'distance over the geoms that are not eliminated, together with that geom id, and (-1, -1) iff there is none.')
 BOUNDS = {'quick': {'mj_ray': 'ngeom <= 2', 'leaf intersections': 'all real inputs'}, 'thorough': {'mj_ray': 'ngeom <= 3'}}
-OUTSIDE = 'capsule, ellipsoid, cylinder, box, mesh, hfield, flex intersections; mj_multiRay (BVH, angular pre-filter); floating-point rounding.'
+OUTSIDE = 'capsule (unit_capsule is written - on-surface / nearest / miss over the three surface patches - but path feasibility and the miss query do not finish in nlsat, so it is not registered), ellipsoid, cylinder, box, mesh, hfield, flex intersections; mj_multiRay (BVH, angular pre-filter); floating-point rounding.'
 ASSUMPTIONS = ['real-number semantics', 'per-geom ray functions uninterpreted in the mj_ray selection loop', 'rotation matrices orthonormal for ray_plane']
 BUDGET = {'quick': 600, 'thorough': 1800}
 _c = {}
